@@ -114,7 +114,40 @@ def _rw_values_enumerate(text):
     return new, 1
 
 
+def _rw_extend_chain(text):
+    # RW16: `collected.extend(F(X).into_iter().filter(filter).enumerate().map(|(i, value)| (KEY, value)));` ->
+    #       `{ let mut inner__ = F(X).into_iter(); let mut i: usize = 0;
+    #          while let Some(value) = inner__.next() { if filter(&value) { collected.push((KEY, value)); i += 1; } } }`
+    # (std's filter / enumerate / map / extend written out; KEY is copied verbatim from the source)
+    pat = re.compile(r'collected\.extend\(\s*(\w+)\(([\w.]+)\)\s*\.into_iter\(\)\s*\.filter\(filter\)\s*\.enumerate\(\)\s*'
+                     r'\.map\(\|\(i, value\)\| \((\(.*?\)), value\)\),?\s*\);', re.S)
+    def rep(m):
+        return ('{ let mut inner__ = %s(%s).into_iter(); let mut i: usize = 0; while let Some(value) = inner__.next() { '
+                'if filter(&value) { collected.push((%s, value)); i += 1; } } }' % (m.group(1), m.group(2), m.group(3)))
+    return pat.subn(rep, text)
+
+
+def _rw_chunk_reduce(text):
+    # RW17: `let x = chunk<adaptor chain>.reduce(reduce);` -> `let x = chunk_reduce(chunk);`
+    # (the adaptor chain over one chunk becomes an assumed function: Some iff an element of the chunk survives)
+    return re.subn(r'let x = chunk\b[^;]*?\.reduce\(reduce\);', 'let x = chunk_reduce(chunk);', text, flags=re.S)
+
+
+def _rw_values_reduce(text):
+    # RW18: `iter.values()<adaptor chain>.reduce(reduce)` -> `values_reduce(iter)` (whole arm assumed, T6)
+    return re.subn(r'iter\.values\(\)[^;{}]*?\.reduce\(reduce\)', 'values_reduce(iter)', text, flags=re.S)
+
+
+def _rw_for_values(text):
+    # RW19: `for x in iter.values() {` -> `while let Some(x) = iter.next() {` (ConIterValuesX::next is iter.next())
+    return re.subn(r'for x in iter\.values\(\) \{', 'while let Some(x) = iter.next() {', text)
+
+
 REWRITES = {
+    'RW17': ('let x = chunk<chain>.reduce(reduce) -> let x = chunk_reduce(chunk) (assumption T6: Some iff the chunk has a survivor)', _rw_chunk_reduce),
+    'RW18': ('iter.values()<chain>.reduce(reduce) -> values_reduce(iter) (chunk-size-1 arm of this kernel is a single std adaptor chain: assumed, T6)', _rw_values_reduce),
+    'RW19': ('for x in iter.values() -> while let Some(x) = iter.next() (the values() wrapper forwards next())', _rw_for_values),
+    'RW16': ('collected.extend(f(x).into_iter().filter(filter).enumerate().map(|(i, value)| (KEY, value))) -> explicit loop with counter (assumption T6 for filter/enumerate/map/extend; KEY verbatim)', _rw_extend_chain),
     'RW15': ('for (c, v) in chunk.values.enumerate() -> explicit counter + while let Some(v) = vals__.next() (assumption T6 for Enumerate)', _rw_values_enumerate),
     'RW14': ('for vec in vectors.iter_mut() -> for vec in it: vectors.iter_mut() (names the ghost iterator; same loop)', _rw_name_iter_mut),
     'RW13': ('fn f(_: &T) -> fn f(_x: &T) (unnamed parameter named; unused either way)', _rw_name_param),
